@@ -379,9 +379,20 @@ func c19WStat(r *Run) {
 		c, ok := v.(*ssa.Const)
 		return ok && c.Value != nil && c.Value.ExactString() == `""`
 	}
+	fa := p.FA(fn)
 	ownPath := func(v ssa.Value, at ssa.Instruction) bool {
-		if c, ok := v.(*ssa.Call); ok && calleeName(&c.Call) == "(ufs.FileRef).fullPath" {
-			return pt.classAt(fn, v, at, nil, 0) == pHC
+		c, ok := v.(*ssa.Call)
+		if !ok || calleeName(&c.Call) != "(ufs.FileRef).fullPath" {
+			return false
+		}
+		if pt.classAt(fn, v, at, nil, 0) != pHC {
+			return false
+		}
+		// the path must be current: no store into the FileRef (e.g. the rename's ref.Path = rel)
+		// between computing the host path and using it
+		if u, ok := c.Call.Args[0].(*ssa.UnOp); ok && u.Op == token.MUL {
+			cls := addrClass(u.X)
+			return fa.versionAt(u, cls) == fa.versionAt(at, cls)
 		}
 		return false
 	}
@@ -395,7 +406,7 @@ func c19WStat(r *Run) {
 			}
 		}
 		r.Check(guarded(c, "Mode", allOnes32) && ownPath(c.Call.Args[0], c) && okMode, "wstat", "WStat: chmod(own path, dir.Mode&0777) only when Mode is not the sentinel", c.Pos(),
-			"mode change does not follow the request (sentinel ignored, other path, or other bits)")
+			"mode change does not follow the request (sentinel ignored, other or stale path, or other bits)")
 	}
 	for _, c := range findCalls(fn, "os.Truncate") {
 		n++
@@ -404,7 +415,7 @@ func c19WStat(r *Run) {
 			okLen = true
 		}
 		r.Check(guarded(c, "Length", allOnes64) && ownPath(c.Call.Args[0], c) && okLen, "wstat", "WStat: truncate(own path, dir.Length) only when Length is not the sentinel", c.Pos(),
-			"length change does not follow the request")
+			"length change does not follow the request (sentinel ignored, or it acts on another / a stale path, e.g. the pre-rename path)")
 	}
 	for _, c := range findCalls(fn, "syscall.Rename", "os.Rename") {
 		n++
